@@ -333,6 +333,10 @@ func c06FixedList() []c06Fixed {
 			return b.String()
 		})
 	}
+	// (4d') at each limit, every kind of statement and runtime event
+	for _, lc := range limitEventCases() {
+		add("limit_then_each_event", "", lc.src)
+	}
 	// (4e) parenthesis nesting
 	for _, n := range []int{10, 100, 1000, 5000, 10000} {
 		n := n
